@@ -3,7 +3,7 @@ C08 driver handlers: line protocol shared with harness/c08.c (one op per line, o
 `err` = the C function returned SIZE_MAX / FALSE-as-error; `OOB` = the model read outside its
 input (the harness can never print this, so it always shows up as a disagreement).
 -/
-import Bee2V.C08.Model2
+import Bee2V.C08.Model3
 import Bee2V.Base.Proto
 namespace Bee2V.C08.Drv
 open Bee2V.C08 Bee2V.Proto
@@ -221,6 +221,30 @@ def handle : List String → String
         s!"{(decLuhnCalc s).toNat} {b01 (decLuhnVerify s)} {(decDammCalc s).toNat} {b01 (decDammVerify s)}"
       else "invalid"
     | none => "bad-op"
+  | ["pkdec", x] => match parseHex x with
+    | some x => showR (fun (r : Nat × DSt) => s!"{toHex (r.2.outs.getD 0 [])} {r.1}") (bpkiPrivkeyDec x)
+    | none => "bad-op"
+  | ["shdec", x] => match parseHex x with
+    | some x => showR (fun (r : Nat × DSt) => s!"{toHex (r.2.outs.getD 0 [])} {r.1}") (bpkiShareDec x)
+    | none => "bad-op"
+  | ["eddec", x] => match parseHex x with
+    | some x => showR (fun (r : Nat × DSt) =>
+        s!"{toHex (r.2.outs.getD 1 [])} {toHex (r.2.outs.getD 0 [])} {r.2.nums.getD 0 0} {r.1}") (bpkiEdataDec x)
+    | none => "bad-op"
+  | ["csrdec", x] => match parseHex x with
+    | some x => showR (fun (r : Nat × DSt) =>
+        let n := r.2.nums
+        s!"{n.getD 3 0} {n.getD 1 0 - n.getD 3 0} {n.getD 2 0} {n.getD 0 0} {r.1}") (bpkiCSRDec x)
+    | none => "bad-op"
+  | ["pkenc", k] => match parseHex k with
+    | some k => if k.length = 24 ∨ k.length = 32 ∨ k.length = 48 ∨ k.length = 64 then showR toHex (bpkiPrivkeyEnc k) else "invalid"
+    | none => "bad-op"
+  | ["shenc", k] => match parseHex k with
+    | some k => if k.length = 17 ∨ k.length = 25 ∨ k.length = 33 then showR toHex (bpkiShareEnc k) else "invalid"
+    | none => "bad-op"
+  | ["edenc", e, salt, iter] => match parseHex e, parseHex salt, parseNat iter with
+    | some e, some salt, some iter => if salt.length = 8 ∧ iter < W then showR toHex (bpkiEdataEnc e salt iter) else "invalid"
+    | _, _, _ => "bad-op"
   | _ => "bad-op"
 
 end Bee2V.C08.Drv
